@@ -334,7 +334,7 @@ type recPV struct {
 func (p *recPV) GetPubKey() (crypto.PubKey, error) { return p.inner.GetPubKey() }
 func (p *recPV) SignVote(chain string, v *tmproto.Vote) error {
 	err := p.inner.SignVote(chain, v)
-	if err == nil && v.Height == 1 {
+	if err == nil && v.Height == 1 && !p.nd.replaying {
 		t := "pv"
 		if v.Type == tmproto.PrecommitType {
 			t = "pc"
@@ -346,7 +346,7 @@ func (p *recPV) SignVote(chain string, v *tmproto.Vote) error {
 }
 func (p *recPV) SignProposal(chain string, pr *tmproto.Proposal) error {
 	err := p.inner.SignProposal(chain, pr)
-	if err == nil && pr.Height == 1 {
+	if err == nil && pr.Height == 1 && !p.nd.replaying {
 		id, _ := types.BlockIDFromProto(&pr.BlockID)
 		p.nd.signed(msg{sender: p.nd.idx, prop: true, r: int(pr.Round), b: p.nd.net.bidIndex(*id), pol: int(pr.PolRound), ok: true, addr: p.nd.idx, key: p.nd.idx, sigok: true})
 	}
@@ -362,11 +362,19 @@ type node struct {
 	bus     *types.EventBus
 	bstore  *store.BlockStore
 	dir     string
+	blockExec *sm.BlockExecutor
 	events  []string
 	halted  bool
 	decided string
 	sched   map[[2]int]bool // (round, step) scheduled at height 1
 	schedL  [][2]int        // in scheduling order (for the generator)
+	// restart support (nets with wal=1): how to build a new consensus state on the same stores, the
+	// WAL file, and whether a WAL replay is in progress (signatures / timeouts of a replay are not news)
+	mk        func() *consensus.State
+	walPath   string
+	replaying bool
+	onStart   chan struct{}
+	restarts  int
 }
 
 // signed: every proposal/vote the node signs is appended to the log, in signing order
@@ -411,6 +419,7 @@ type netSim struct {
 	log      []msg
 	extra    map[int]types.BlockID // block ids >= nIDs named by hostile lines
 	nodrain  bool                  // the op being applied carries drain=0
+	wal      bool                  // nodes write a real WAL and can be restarted
 }
 
 func (nt *netSim) correct(i int) bool { return i >= 0 && i < nt.w.n() && !nt.faulty[i] }
@@ -481,6 +490,12 @@ func newNet(line string) *netSim {
 	}
 	rest := toks[1:]
 	get := func(k string) string { v, _ := kvGet(rest, k); return v }
+	// optional suffix " wal=1": the nodes write a real consensus WAL and `restart` ops are real restarts
+	wal := false
+	if strings.HasSuffix(line, " wal=1") {
+		wal = true
+		line = strings.TrimSuffix(line, " wal=1")
+	}
 	powers, ok := parseInts(get("powers"))
 	if !ok || len(powers) < 4 || len(powers) > 7 || !sort.SliceIsSorted(powers, func(i, j int) bool { return powers[i] > powers[j] }) {
 		return nil
@@ -521,7 +536,10 @@ func newNet(line string) *netSim {
 			return nil
 		}
 	}
-	nt := &netSim{w: w, faulty: fm, faultyL: faulty, hrs: hrs, wait: wait, interval: interval, extra: map[int]types.BlockID{}}
+	if wal && !hrs {
+		return nil
+	}
+	nt := &netSim{w: w, faulty: fm, faultyL: faulty, hrs: hrs, wait: wait, interval: interval, wal: wal, extra: map[int]types.BlockID{}}
 	nt.nodes = make([]*node, w.n())
 	for i := 0; i < w.n(); i++ {
 		if !fm[i] {
@@ -554,34 +572,53 @@ func (nt *netSim) newNode(self int) *node {
 	if nt.interval {
 		cc.CreateEmptyBlocksInterval = time.Second
 	}
-	cs := consensus.NewState(cc, w.state.Copy(), blockExec, nd.bstore, mp, evpool)
-	cs.SetLogger(log.NewNopLogger())
-	var inner types.PrivValidator
 	if nt.hrs {
 		dir, err := os.MkdirTemp(tmpRoot(), "verif-c01-")
 		if err != nil {
 			panic(err)
 		}
 		nd.dir = dir
-		inner = privval.NewFilePV(w.keys[self], dir+"/key.json", dir+"/state.json")
-	} else {
-		inner = types.NewMockPVWithParams(w.keys[self], false, false)
 	}
-	cs.SetPrivValidator(&recPV{inner: inner, nd: nd})
+	if nt.wal {
+		nd.walPath = nd.dir + "/wal/wal"
+		cc.SetWalFile(nd.walPath)
+		// a restarted node runs the real ticker for a moment: nothing may fire
+		cc.TimeoutPropose, cc.TimeoutPrevote, cc.TimeoutPrecommit, cc.TimeoutCommit = time.Hour, time.Hour, time.Hour, time.Hour
+	}
 	nd.bus = types.NewEventBus()
 	nd.bus.SetLogger(log.NewNopLogger())
 	if err := nd.bus.Start(); err != nil {
 		panic(err)
 	}
-	cs.SetEventBus(nd.bus)
-	nd.node = consensus.NewVerifNode(cs, func(t consensus.VerifTimeout) {
-		if t.Height == 1 {
-			nd.events = append(nd.events, fmt.Sprintf("to(%d,%s)", t.Round, stepNames[t.Step]))
-			k := [2]int{int(t.Round), int(t.Step)}
-			nd.sched[k] = true
-			nd.schedL = append(nd.schedL, k)
+	first := true
+	nd.mk = func() *consensus.State {
+		cs := consensus.NewState(cc, w.state.Copy(), blockExec, nd.bstore, mp, evpool)
+		cs.SetLogger(log.NewNopLogger())
+		var inner types.PrivValidator
+		switch {
+		case nt.hrs && first:
+			fpv := privval.NewFilePV(w.keys[self], nd.dir+"/key.json", nd.dir+"/state.json")
+			if nt.wal {
+				fpv.Save() // a restart loads key and last-sign state from disk
+			}
+			inner = fpv
+		case nt.hrs:
+			inner = privval.LoadFilePV(nd.dir+"/key.json", nd.dir+"/state.json")
+		default:
+			inner = types.NewMockPVWithParams(w.keys[self], false, false)
 		}
-	})
+		first = false
+		cs.SetPrivValidator(&recPV{inner: inner, nd: nd})
+		cs.SetEventBus(nd.bus)
+		return cs
+	}
+	nd.blockExec = blockExec
+	nd.wrap(nd.mk())
+	if nt.wal {
+		if err := nd.node.OpenVerifWAL(nd.walPath); err != nil {
+			panic(err)
+		}
+	}
 	b, _ := nd.node.CreateProposalBlock()
 	if !bytes.Equal(b.Hash(), w.blocks[self].id.Hash) {
 		nd.close()
@@ -590,9 +627,35 @@ func (nt *netSim) newNode(self int) *node {
 	return nd
 }
 
+// wrap installs the recording ticker on a (never started, or stopped) consensus state
+func (nd *node) wrap(cs *consensus.State) {
+	nd.node = consensus.NewVerifNode(cs, func(t consensus.VerifTimeout) {
+		if t.Height != 1 {
+			return
+		}
+		if nd.replaying {
+			// OnStart ends with scheduleRound0: the signal that WAL catch-up (if any) is over
+			if t.Step == cstypes.RoundStepNewHeight && nd.onStart != nil {
+				select {
+				case nd.onStart <- struct{}{}:
+				default:
+				}
+			}
+			return
+		}
+		nd.events = append(nd.events, fmt.Sprintf("to(%d,%s)", t.Round, stepNames[t.Step]))
+		k := [2]int{int(t.Round), int(t.Step)}
+		nd.sched[k] = true
+		nd.schedL = append(nd.schedL, k)
+	})
+}
+
 func (nd *node) close() {
 	if nd == nil {
 		return
+	}
+	if nd.node != nil {
+		nd.node.CloseVerifWAL()
 	}
 	if nd.bus != nil {
 		nd.bus.Stop() //nolint:errcheck
@@ -666,10 +729,7 @@ func (nd *node) deliverMsg(m msg, peer int) string {
 			sig[3] ^= 0x40
 		}
 		p.Signature = sig
-		if nd.net.nodrain {
-			return nd.node.HandleProposalNoDrain(p, peerID(peer))
-		}
-		return nd.node.HandleProposal(p, peerID(peer))
+		return nd.node.HandleProposalW(p, peerID(peer), !nd.net.nodrain)
 	}
 	t, _ := vtype(m.t)
 	// the vote claims slot `sender`, carries the address of validator `addr` and is signed by `key`
@@ -683,10 +743,7 @@ func (nd *node) deliverMsg(m msg, peer int) string {
 		sig[3] ^= 0x40
 	}
 	vote.Signature = sig
-	if nd.net.nodrain {
-		return nd.node.HandleVoteNoDrain(vote, peerID(peer))
-	}
-	return nd.node.HandleVote(vote, peerID(peer))
+	return nd.node.HandleVoteW(vote, peerID(peer), !nd.net.nodrain)
 }
 
 // onNode runs one input on node i and returns the canonical line
@@ -776,10 +833,7 @@ func (nt *netSim) apply(op string) string {
 				}
 				return ""
 			}
-			if nt.nodrain {
-				return nd.node.HandleBlockPartNoDrain(1, rs.Round, nt.w.blocks[b].parts.GetPart(0), "peer1")
-			}
-			return nd.node.HandleBlockPart(1, rs.Round, nt.w.blocks[b].parts.GetPart(0), "peer1")
+			return nd.node.HandleBlockPartW(1, rs.Round, nt.w.blocks[b].parts.GetPart(0), "peer1", !nt.nodrain)
 		})
 	case "claim":
 		i, ok1 := natKey(rest, "node")
@@ -814,10 +868,7 @@ func (nt *netSim) apply(op string) string {
 			return "refused"
 		}
 		return nt.onNode(i, func(nd *node) string {
-			if nt.nodrain {
-				return nd.node.HandleTimeoutNoDrain(1, int32(r), st)
-			}
-			return nd.node.HandleTimeout(1, int32(r), st)
+			return nd.node.HandleTimeoutW(1, int32(r), st, !nt.nodrain)
 		})
 	case "txs":
 		i, ok1 := natKey(rest, "node")
@@ -828,10 +879,22 @@ func (nt *netSim) apply(op string) string {
 			return "refused"
 		}
 		return nt.onNode(i, func(nd *node) string {
-			if nt.nodrain {
-				return nd.node.HandleTxsAvailableNoDrain()
+			return nd.node.HandleTxsAvailableW(!nt.nodrain)
+		})
+	case "restart":
+		// the node process stops and comes back through the fast-sync hand-over with nothing to sync
+		i, ok1 := natKey(rest, "node")
+		if !ok1 {
+			return "bad-op"
+		}
+		if !nt.correct(i) {
+			return "refused"
+		}
+		return nt.onNode(i, func(nd *node) string {
+			if !nt.wal {
+				return "" // no WAL in this network: nothing to restart from (the generator never does this)
 			}
-			return nd.node.HandleTxsAvailable()
+			return nd.restart()
 		})
 	case "own":
 		// the node hears the idx-th of its own queued messages (any one, at any time)
@@ -844,7 +907,7 @@ func (nt *netSim) apply(op string) string {
 			return "refused"
 		}
 		return nt.onNode(i, func(nd *node) string {
-			p, _ := nd.node.HandleOwn(k)
+			p, _ := nd.node.HandleOwnW(k)
 			return p
 		})
 	case "byz":
